@@ -36,6 +36,22 @@ def classify(sc, ob, verdict):
     return None
 
 
+def judge_impl(cases, obs):
+    """defer / start subscribed again: the i-th observer is served by the i-th call of the factory / function (call i yields the
+    single item i), whatever the earlier observers were given"""
+    out = []
+    for i, ((sc, info), ob) in enumerate(zip(cases, obs)):
+        if info.get("k") != "creation-again" or not info.get("bare") or ob["out"] != "ok":
+            continue
+        for u in range(info["n"]):
+            got = [sx.dumps(x[2]) for x in ob["log"] if x[0] == "t%d" % u]
+            want = ["(n %d)" % u, "(c)"]
+            if got != want:
+                out.append((i, "observer %d of a defer/start Observable subscribed %d times received %s, expected %s (a fresh Observable / call for each observer)" % (u, info["n"], " ".join(got), " ".join(want))))
+                break
+    return out
+
+
 C02_NAMES = [x for x in scen.SINGLE_NAMES if x not in ("retry", "retry_when")]
 
 
@@ -95,6 +111,15 @@ def generate(rng, tier, focus):
             nm = rng.choice(C02_NAMES)
             p = op(nm, rng.choice(params_grid(nm)), p)
         cases.append((scn(script_=[sub(0, p)]), {"k": "creation"}))
+    # creation functions subscribed again and again: defer asks its factory once PER OBSERVER (call k of the counting factory
+    # builds just k), start calls its function once per observer; judged by impl = model
+    for _ in range(300 if thorough else 60):
+        p = rng.choice([["defer_built", 0], ["defer_built", 0], ["defer", ["start", 0]], ["start", 0], ["defer", ["defer_built", 0]]])
+        if rng.random() < 0.6:
+            nm = rng.choice([x for x in C02_NAMES if x not in ("window_with_count", "group_by")])
+            p = op(nm, rng.choice(params_grid(nm)), p)
+        k = rng.choice([2, 3, 4])
+        cases.append((scn(handles=k, script_=[sub(i, ["ref", 0]) for i in range(k)], defs=[p]), {"k": "creation-again", "bare": p[0] != "op", "n": k}))
     # repeat must be cut
     for _ in range(200 if thorough else 40):
         p = ["repeat", rng.choice(ITEMS)]
